@@ -80,7 +80,15 @@ def run(ctx):
             continue
         mc = dict(kv.split("=") for kv in m[3:].split())
         n_cells, visits = int(mc["cells"]), int(mc["visits"])
-        objs = cells.build_py(d)
+        # constructing the cells (hashing, level masks) is part of the work: it must not re-walk shared sub-DAGs either
+        built = []
+        t0 = time.time()
+        r = core.call_impl(lambda _: built.append(cells.build_py(d)) or "ok", None, timeout_s=10)
+        if r != "ok" or time.time() - t0 > 5.0:
+            ctx.fail("cell-construction-work-superlinear",
+                     f"{n_cells} cells, {len(d)} nodes: constructing the DAG bottom-up took {time.time() - t0:.1f}s ({r})", {"dag": d, "construct": 1})
+            continue
+        objs = built[0]
         root = objs[-1]
         bound = 8 * (visits + n_cells) + 16
         calls, dt, res = count_hash_calls(lambda: root.order({}), budget=100 * bound)
@@ -354,6 +362,10 @@ def replay(ctx, obj):
         r = core.call_impl(lambda _: boc.py_parse(c["boc"]), None, timeout_s=10)
         return "parser ran long" if time.time() - t0 > 1.0 or r == "timeout" else None
     d = [(t, b, list(r)) for t, b, r in c["dag"]]
+    if c.get("construct"):
+        t0 = time.time()
+        r = core.call_impl(lambda _: cells.build_py(d) and "ok", None, timeout_s=10)
+        return None if r == "ok" and time.time() - t0 < 5.0 else f"constructing the DAG took {time.time() - t0:.1f}s ({r})"
     objs = cells.build_py(d)
     n = len({o.hash for o in objs})
     if c.get("rehash"):
